@@ -242,6 +242,9 @@ pub(crate) fn add_int_digits<W, R, T>(
             let n = to_primitive!(a0, Int);
             let a1 = xraise_opt!(args.get(1).map(|e| eval(e, ns, &rt)).transpose()?);
             let b = to_primitive!(a1, Int, LazyBigint::from(10));
+            if b.as_ref() < &LazyBigint::from(2) {
+                return xerr(ManagedXError::new("base must be at least 2", rt)?);
+            }
             let mut digits = Vec::new();
             let mut total_bits = 0;
             let mut n = n.clone();
